@@ -227,7 +227,7 @@ def run_parsers(prop, tier):
             cov["faults_fired"] = {k: agg.stats[k] for k in ("cancel_stmt_fired", "cancel_line_fired", "dump_fault_fired")}
             cov["probes"] = {k: agg.stats[k] for k in ("reruns", "mode_changes", "after_fault_checks", "cancel_in_multi", "exc_outcomes", "objects",
                                                        "refs", "refs_other_hashseed", "global_state_changed", "victims_run",
-                                                       "marathon_runs", "reflag_objects", "followup_objects", "nodump_with_paths", "from_file_other_process")}
+                                                       "marathon_runs", "reflag_objects", "followup_objects", "nodump_with_paths", "from_file_other_process", "results_scribbled")}
             cov["reference_hash_seeds"] = sorted(set(str(x) for x in ref_hashseeds))
         else:
             cov["rule"] = ("one evaluation = one schedule of 2-4 parser objects (construct, run, [run]) under granularity O (atomic ops; "
